@@ -616,23 +616,26 @@ func newFileStore(path string, autoFlushCache bool) (*fileStore, error) {
 		file:           file,
 		mtx:            sync.RWMutex{},
 	}
-	if autoFlushCache {
-		fs.tickerDone = make(chan bool)
-		fs.ticker = time.NewTicker(pageFlushInterval)
-		go func() {
-			for {
-				select {
-				case <-fs.tickerDone:
-					return
-				case <-fs.ticker.C:
-					if err := fs.flushPages(); err != nil {
-						fmt.Printf("error flushing pages: %s", err.Error())
-					}
+	return fs, nil
+}
+
+// startFlusher starts the periodic page flush. It runs only once the header
+// has been read: a flush writes the header fields back to the file.
+func (f *fileStore) startFlusher() {
+	f.tickerDone = make(chan bool)
+	f.ticker = time.NewTicker(pageFlushInterval)
+	go func() {
+		for {
+			select {
+			case <-f.tickerDone:
+				return
+			case <-f.ticker.C:
+				if err := f.flushPages(); err != nil {
+					fmt.Printf("error flushing pages: %s", err.Error())
 				}
 			}
-		}()
-	}
-	return fs, nil
+		}
+	}()
 }
 
 type fileStore struct {
@@ -665,7 +668,7 @@ func (f *fileStore) unlockExclusive() {
 
 func (f *fileStore) close() error {
 	defer f.file.Close()
-	if f.autoFlushCache {
+	if f.ticker != nil {
 		f.ticker.Stop()
 		f.tickerDone <- true
 	}
@@ -778,11 +781,10 @@ func (f *fileStore) save() error {
 	return nil
 }
 
-// open reads the header under the exclusive lock: the page flusher of this
-// store is already running and reads (and rewrites) the same fields.
+// open reads the header and then, for a store that flushes by itself, starts
+// the page flusher: a flush rewrites the header from these fields, so it must
+// not run before they have been read.
 func (f *fileStore) open() error {
-	f.lockExclusive()
-	defer f.unlockExclusive()
 	if err := binary.Read(f.file, binary.LittleEndian, &f.lastKey); err != nil {
 		return err
 	}
@@ -794,6 +796,9 @@ func (f *fileStore) open() error {
 	}
 	if err := binary.Read(f.file, binary.LittleEndian, &f._nextLSN); err != nil {
 		return err
+	}
+	if f.autoFlushCache {
+		f.startFlusher()
 	}
 	return nil
 }
